@@ -11,10 +11,14 @@ Positions x kinds x targets are enumerated; only the programs are sampled.
 from __future__ import annotations
 
 import copy
+import time
 
 from sim import actions, alpha, gen, oracles, runner, seams, twins
 from sim.oracles import Violation
 from sim.world import World, reset_library
+
+
+DEADLINE = None  # set by the worker: enumeration of the current program ends there (what was injected stays checked)
 
 
 def candidates(world, pre):
@@ -189,6 +193,8 @@ def _inject_run(cfg, recipes, base, rr_out, limit_per_pos=80, only=None):
     fsid = 10**6
     executed = []  # everything that ran so far: a rejected call may change representation levels
     for j, r in enumerate(recipes):
+        if DEADLINE is not None and time.time() > DEADLINE:
+            return viols, injections
         cands = candidates(world, pre)
         if len(cands) > limit_per_pos:
             # bounded work per position: a window that moves with the position, so that every
